@@ -17,12 +17,13 @@ def main():
     ap.add_argument("--tier", default=os.environ.get("VERIF_TIER", "quick"), choices=["quick", "thorough"])
     ap.add_argument("--jobs", type=int, default=int(os.environ.get("VF_JOBS", "16")))
     ap.add_argument("--replay")
-    ap.add_argument("--only", help="regex on obligation names (debugging; evidence is still written)")
+    ap.add_argument("--only", help="regex on obligation names (debugging; evidence goes to out/partial-evidence/)")
     ap.add_argument("--list", action="store_true")
     a = ap.parse_args()
     seed = int(os.environ.get("VERIF_SEED", "0") or 0)
     prop = a.prop.upper()
     ctx = core.Ctx(prop, a.tier, seed, a.jobs)
+    ctx.filtered = bool(a.only)  # a run restricted with --only writes its evidence under out/partial-evidence/, never over evidence/<id>.json
     if a.replay:
         rec = json.load(open(a.replay))
         d = ctx.scratch.sub("replay")
